@@ -160,7 +160,7 @@ def four_column_rows(rep, known):
         rows = []
         for (i, j) in ((0, 1), (1, 0), (1, 2)):
             for (t, e) in U.spans(4):
-                rows.append((i, j, t, e))
+                rows.append((i, j, t - 2, None if e is None else e - 2))     # instants -2..1: the rows straddle 0
         seqs = [(r,) for r in rows] + [(a, b) for a in rows for b in rows]
         for seq in seqs:
             M = Model(conf)
@@ -183,7 +183,7 @@ def four_column_rows(rep, known):
             badp = None
             for u in range(3):
                 for v in range(3):
-                    for t in range(-1, 6):
+                    for t in range(-4, 5):
                         if bool(H.has_interaction(u, v, t)) != M.present(u, v, t):
                             badp = (u, v, t)
             if badp:
